@@ -327,6 +327,122 @@ theorem windowsException_family (e : Exc) : (windowsException e).family ∈ wind
         · exact hbase
       · exact hbase
 
+theorem windowsError_family (code : Nat) :
+    (windowsError code).family ∈
+      [Family.WindowsWinError, .WindowsNtStatus, .WindowsWinErrorWithFacility, .WindowsUnknown] := by
+  have h := windowsCode_family code
+  unfold windowsError
+  split
+  · simp [Reason.mk1]
+  · split
+    · simp [Reason.mk1]
+    · split
+      · rename_i r hr
+        unfold windowsWithFacility at hr
+        split at hr
+        · split at hr
+          · split at hr
+            · cases hr; simp
+            · cases hr
+          · cases hr
+        · cases hr
+      · simp
+
+/-- `from_windows_code` yields `WindowsGeneral(name)` exactly for the codes of `ExceptionCodeWindows` -/
+theorem windowsCode_general_iff (code : Nat) (n : String) :
+    windowsCode code = .mk1 .WindowsGeneral n ↔ lookup Enums.ExceptionCodeWindows code = some n := by
+  unfold windowsCode
+  cases h : lookup Enums.ExceptionCodeWindows code with
+  | some m => simp [Reason.mk1]
+  | none =>
+    simp only [reduceCtorEq, iff_false]
+    intro heq
+    have hf := windowsError_family code
+    rw [heq] at hf
+    simp [Reason.mk1] at hf
+
+/-- `ExceptionCodeWindowsAccessType::from_u64` knows exactly 0 (READ), 1 (WRITE) and 8 (EXEC) -/
+theorem accessType_cases (v : Nat) :
+    (v = 0 ∧ lookup Enums.ExceptionCodeWindowsAccessType v = some "READ") ∨
+    (v = 1 ∧ lookup Enums.ExceptionCodeWindowsAccessType v = some "WRITE") ∨
+    (v = 8 ∧ lookup Enums.ExceptionCodeWindowsAccessType v = some "EXEC") ∨
+    (v ≠ 0 ∧ v ≠ 1 ∧ v ≠ 8 ∧ lookup Enums.ExceptionCodeWindowsAccessType v = none) := by
+  by_cases h0 : v = 0
+  · subst h0; left; exact ⟨rfl, by decide⟩
+  by_cases h1 : v = 1
+  · subst h1; right; left; exact ⟨rfl, by decide⟩
+  by_cases h8 : v = 8
+  · subst h8; right; right; left; exact ⟨rfl, by decide⟩
+  right; right; right
+  refine ⟨h0, h1, h8, ?_⟩
+  rw [lookup_none_iff]
+  intro n hn
+  simp only [Enums.ExceptionCodeWindowsAccessType, List.mem_cons, Prod.mk.injEq, List.mem_nil_iff, or_false] at hn
+  omega
+
+/-- the access-violation refinement of the Windows reason and ITS parameter-count gate (one
+    parameter suffices for the access type, while the address needs two — `crash_address_spec`) -/
+theorem windows_access_violation_iff (e : Exc) :
+    (windowsException e).family = .WindowsAccessViolation ↔
+      e.code = 0xc0000005 ∧ 1 ≤ e.nparams ∧ (e.p0 = 0 ∨ e.p0 = 1 ∨ e.p0 = 8) := by
+  have hfam := windowsCode_family e.code
+  have hne : ∀ f, f ∈ [Family.WindowsGeneral, .WindowsWinError, .WindowsNtStatus,
+      .WindowsWinErrorWithFacility, .WindowsUnknown] → f ≠ .WindowsAccessViolation := by decide
+  have hbase := hne _ hfam
+  unfold windowsException
+  simp only [windowsCode_general_iff, access_violation_code, in_page_error_code, ge_iff_le]
+  by_cases hc : e.code = 0xc0000005
+  · rw [if_pos hc]
+    by_cases hn : 1 ≤ e.nparams
+    · rw [if_pos hn]
+      rcases accessType_cases e.p0 with ⟨h, hl⟩ | ⟨h, hl⟩ | ⟨h, hl⟩ | ⟨h0, h1, h8, hl⟩
+      · rw [hl]; simp [Reason.mk1, hc, hn, h]
+      · rw [hl]; simp [Reason.mk1, hc, hn, h]
+      · rw [hl]; simp [Reason.mk1, hc, hn, h]
+      · rw [hl]; simp only; constructor
+        · intro h; exact absurd h hbase
+        · rintro ⟨-, -, h | h | h⟩ <;> contradiction
+    · rw [if_neg hn]
+      constructor
+      · intro h; exact absurd h hbase
+      · rintro ⟨-, h, -⟩; exact absurd h hn
+  · rw [if_neg hc]
+    constructor
+    · intro h
+      exfalso
+      split at h
+      · split at h
+        · split at h
+          · simp at h
+          · exact hbase h
+        · exact hbase h
+      · split at h
+        · split at h
+          · simp at h
+          · exact hbase h
+        · exact hbase h
+    · rintro ⟨h, -⟩; exact absurd h hc
+
+/-- the small sub-code tables, as documented by the platform ABIs (asm-generic/siginfo.h,
+    WinNT.h): a change of any of these values in the Rust source breaks this obligation -/
+theorem documented_small_tables :
+    Enums.ExceptionCodeLinuxSigsegvKind = [(1, "SEGV_MAPERR"), (2, "SEGV_ACCERR"), (3, "SEGV_BNDERR"), (4, "SEGV_PKUERR")] ∧
+    Enums.ExceptionCodeLinuxSigbusKind =
+      [(1, "BUS_ADRALN"), (2, "BUS_ADRERR"), (3, "BUS_OBJERR"), (4, "BUS_MCEERR_AR"), (5, "BUS_MCEERR_AO")] ∧
+    Enums.ExceptionCodeLinuxSigsysKind = [(1, "SYS_SECCOMP"), (2, "SYS_USER_DISPATCH")] ∧
+    Enums.ExceptionCodeWindowsAccessType = [(0, "READ"), (1, "WRITE"), (8, "EXEC")] ∧
+    Enums.ExceptionCodeWindowsInPageErrorType = [(0, "READ"), (1, "WRITE"), (8, "EXEC")] ∧
+    lookup Enums.ExceptionCodeLinux 11 = some "SIGSEGV" ∧ lookup Enums.ExceptionCodeLinux 7 = some "SIGBUS" ∧
+    lookup Enums.ExceptionCodeLinux 4 = some "SIGILL" ∧ lookup Enums.ExceptionCodeLinux 8 = some "SIGFPE" ∧
+    lookup Enums.ExceptionCodeLinux 5 = some "SIGTRAP" ∧ lookup Enums.ExceptionCodeLinux 31 = some "SIGSYS" ∧
+    lookup Enums.ExceptionCodeLinux 6 = some "SIGABRT" ∧
+    lookup Enums.ExceptionCodeMac 1 = some "EXC_BAD_ACCESS" ∧ lookup Enums.ExceptionCodeMac 2 = some "EXC_BAD_INSTRUCTION" ∧
+    lookup Enums.ExceptionCodeMac 3 = some "EXC_ARITHMETIC" ∧ lookup Enums.ExceptionCodeMac 5 = some "EXC_SOFTWARE" ∧
+    lookup Enums.ExceptionCodeMac 6 = some "EXC_BREAKPOINT" ∧ lookup Enums.ExceptionCodeMac 11 = some "EXC_RESOURCE" ∧
+    lookup Enums.ExceptionCodeMac 12 = some "EXC_GUARD" ∧
+    lookup Enums.NtStatusWindows 0xc0000409 = some "STATUS_STACK_BUFFER_OVERRUN" := by
+  decide +kernel
+
 theorem linuxException_cases (e : Exc) :
     (lookup Enums.ExceptionCodeLinux e.code = none ∧ linuxException e = none) ∨
     (∃ n r, lookup Enums.ExceptionCodeLinux e.code = some n ∧ linuxException e = some r ∧
